@@ -185,7 +185,18 @@ static cbor_item_t* p_item(void) {
   if (perr) return NULL;
   switch (c) {
     case 'u': case 'n': {
-      int w = (int)p_num(); p_eat('('); uint64_t v = p_num(); p_eat(')');
+      int w = (int)p_num(); int raw = 0; if (*P == '!') { P++; raw = 1; }   /* 'u16!(5)': cbor_new_int16 + mark + set instead of cbor_build_uint16 */
+      p_eat('('); uint64_t v = p_num(); p_eat(')');
+      if (raw) {
+        switch (w) {
+          case 8: r = cbor_new_int8(); if (r) { if (c == 'n') cbor_mark_negint(r); else cbor_mark_uint(r); cbor_set_uint8(r, (uint8_t)v); } break;
+          case 16: r = cbor_new_int16(); if (r) { if (c == 'n') cbor_mark_negint(r); else cbor_mark_uint(r); cbor_set_uint16(r, (uint16_t)v); } break;
+          case 32: r = cbor_new_int32(); if (r) { if (c == 'n') cbor_mark_negint(r); else cbor_mark_uint(r); cbor_set_uint32(r, (uint32_t)v); } break;
+          case 64: r = cbor_new_int64(); if (r) { if (c == 'n') cbor_mark_negint(r); else cbor_mark_uint(r); cbor_set_uint64(r, v); } break;
+          default: perr = 1;
+        }
+        return r;
+      }
       switch (w) {
         case 8: r = cbor_build_uint8((uint8_t)v); break; case 16: r = cbor_build_uint16((uint16_t)v); break;
         case 32: r = cbor_build_uint32((uint32_t)v); break; case 64: r = cbor_build_uint64(v); break;
@@ -272,12 +283,29 @@ static cbor_item_t* p_item(void) {
       cbor_decref(&x); cbor_decref(&y); return r;
     }
     case 'h': case 's': {
+      int raw = 0; if (*P == '!') { P++; raw = 1; }      /* 's!(bits)': cbor_new_float4 + cbor_set_float4 */
       p_eat('('); uint32_t b = (uint32_t)p_num(); p_eat(')');
       float f; memcpy(&f, &b, 4);
+      if (raw) { r = c == 'h' ? cbor_new_float2() : cbor_new_float4(); if (r) { if (c == 'h') cbor_set_float2(r, f); else cbor_set_float4(r, f); } return r; }
       return c == 'h' ? cbor_build_float2(f) : cbor_build_float4(f);
     }
-    case 'd': { p_eat('('); uint64_t b = p_num(); p_eat(')'); double f; memcpy(&f, &b, 8); return cbor_build_float8(f); }
-    case 'c': { p_eat('('); uint64_t v = p_num(); p_eat(')'); return cbor_build_ctrl((uint8_t)v); }
+    case 'd': {
+      int raw = 0; if (*P == '!') { P++; raw = 1; }
+      p_eat('('); uint64_t b = p_num(); p_eat(')'); double f; memcpy(&f, &b, 8);
+      if (raw) { r = cbor_new_float8(); if (r) cbor_set_float8(r, f); return r; }
+      return cbor_build_float8(f);
+    }
+    case 'c': {
+      int raw = 0; if (*P == '!') { P++; raw = 1; }      /* 'c!(v)': cbor_new_ctrl + cbor_set_ctrl; 22 / 23 through cbor_new_null / cbor_new_undef; 20 / 21 through cbor_build_bool */
+      p_eat('('); uint64_t v = p_num(); p_eat(')');
+      if (raw) {
+        if (v == 22) return cbor_new_null();
+        if (v == 23) return cbor_new_undef();
+        if (v == 20 || v == 21) return cbor_build_bool(v == 21);
+        r = cbor_new_ctrl(); if (r) cbor_set_ctrl(r, (uint8_t)v); return r;
+      }
+      return cbor_build_ctrl((uint8_t)v);
+    }
     default: perr = 1; return NULL;
   }
 }
